@@ -16,6 +16,7 @@
 	    ((uint64_t) (b)[4] << 24) | ((uint64_t) (b)[5] << 16) |               \
 	    ((uint64_t) (b)[6] << 8) | (uint64_t) (b)[7])
 #define TF_MAXSZ UINT64_C(0x0fffffffffffffff)
+#define VIOV_LENMAX (SIZE_MAX >> 3) /* buffers fit the address space */
 #define TF_LEN_OK(len, rcvmax) ((len) <= TF_MAXSZ && !((rcvmax) > 0 && (len) > (rcvmax)))
 #define TF_HELLO_OK(b) ((b)[0] == 0 && (b)[1] == 'S' && (b)[2] == 'P' && (b)[3] == 0 && (b)[6] == 0 && (b)[7] == 0)
 
